@@ -67,6 +67,11 @@ ROUTINES = {
     80: ("merge_spike_trains", False, ("py",)),
     81: ("time_series_row", False, ("py",)),
     82: ("hist_counts", False, ("py",)),
+    90: ("save_lines", False, ("py",)),
+    91: ("load_lines", False, ("py",)),
+    92: ("psth", False, ("py",)),
+    93: ("poisson_spikes", False, ("py",)),
+    94: ("history", False, ("py", "cy")),
 }
 
 
